@@ -198,7 +198,10 @@ fn judge_step(env: &mut Env, w: &mut World, idx: usize, bytes: &[u8]) -> Result<
     }
     // nothing is sent on the uplinks in response, except the immediate REG1 after a REG_NGP
     if !out.wire.is_empty() && ty != 0x9211 {
-        return Err(Fail::new("unexpected-uplink-send", format!("{}: {} datagrams appeared on the uplinks", show(), out.wire.len())));
+        return Err(Fail::new(
+            "unexpected-uplink-send",
+            format!("{}: {} datagrams appeared on the uplinks: {:?}", show(), out.wire.len(), out.wire.iter().map(|(l, b)| format!("{l}:{:02x?}", &b[..b.len().min(12)])).collect::<Vec<_>>()),
+        ));
     }
     // delivery-proof stamp: which links may / must change
     let n = w.connections.len();
